@@ -20,7 +20,7 @@ ASSUMPTIONS = ['3MR + pairwise mode: self-pairs of relation columns (rel, rel) a
 WARM = [{}]
 WARM_CODE = 'import outrank.core_ranking'
 
-HOSTILE = ['a b', ' lead', 'trail ', 'é', '中文', 'x AND y', 'AND', 'Label', 'LABEL', 'label ', 'a,b', 'a-b', '(1; 100)', 'f-(3; 100)', '', 'a\tb', '0', '00', 'nan', 'None']
+HOSTILE = ['BRAND_RELEVANCE', 'OPERAND_REL', 'xAND_RELy', 'a b', ' lead', 'trail ', 'é', '中文', 'x AND y', 'AND', 'Label', 'LABEL', 'label ', 'a,b', 'a-b', '(1; 100)', 'f-(3; 100)', '', 'a\tb', '0', '00', 'nan', 'None']
 
 
 def plan(tier, seed):
@@ -32,6 +32,7 @@ def plan(tier, seed):
     for i in range(r):
         shards.append({'name': 'random-%d' % i, 'fn': 'shard_random', 'args': {'part': i, 'parts': r}})
     shards.append({'name': 'prior-and-large', 'fn': 'shard_prior_and_large', 'args': {}})
+    shards.append({'name': 'args-reuse', 'fn': 'shard_args_reuse', 'args': {}})
     return shards
 
 
@@ -248,6 +249,35 @@ def shard_random(sh, part, parts):
         regime = 'cap<set' if cap < S else ('cap=set' if cap == S else 'cap>set')
         sh.case((k, cols.index(label), target_only, hclass, regime, core.h64(cols)), k >= 2, 'random/%s/%s/%s' % (hclass, 'target-only' if target_only else 'pairwise', regime),
                 sample={'columns': cols, 'label': label, 'heuristic': heuristic, 'cap': cap, 'via': via, 'n_rows': len(out.triplet_scores)} if t % 15 == 0 else None)
+
+
+def shard_args_reuse(sh):
+    """The pipeline hands the same args object to every mini-batch: a batch must leave it as it found it (3MR heuristics may clip the
+    cap to 10^4), and a later, wider batch must still get all its requested pairs."""
+    h = Harness(sh)
+    rng, nprng = sh.rng('reuse'), sh.nprng('reuse')
+    for t in range(25 if sh.tier == 'quick' else 100):
+        hclass = rng.choice(['scoring', 'Constant', '3mr'])
+        heuristic = {'scoring': 'max-value-coverage', 'Constant': 'Constant', '3mr': 'MI-numba-3mr'}[hclass]
+        target_only = rng.random() < 0.5
+        cap = rng.choice([2 ** 15, 10 ** 6, 40])
+        args = pipe.make_args(heuristic=heuristic, target_ranking_only=str(target_only), combination_number_upper_bound=cap)
+        widths = sorted(rng.sample(range(2, 9), 3))
+        if rng.random() < 0.3:
+            widths = widths[::-1]
+        for b, k in enumerate(widths):
+            cols = ['c%d' % i for i in range(k - 1)] + ['label']
+            frame = make_frame(cols, 10, nprng)
+            before = dict(vars(args))
+            ok, out, fcols, pool = h.run(frame, args)
+            if not ok:
+                break
+            after = dict(vars(args))
+            allowed = {'combination_number_upper_bound'} if (hclass == '3mr' and before['combination_number_upper_bound'] > 10 ** 4) else set()
+            changed = {k_: (before[k_], after.get(k_)) for k_ in before if after.get(k_) != before[k_] and k_ not in allowed}
+            sh.check('requested-set', not changed and set(after) == set(before), 'batch-call-changed-the-shared-args-object', lambda: {'changed': {k_: list(map(repr, v)) for k_, v in changed.items()}, 'batch': b, 'heuristic': heuristic})
+            verify(sh, h, fcols, 'label', target_only, heuristic, cap, out, pool, 'mixed_rank_graph(args reused, batch %d)' % b)
+            sh.case(('args-reuse', t, b, k, hclass), True, 'args-reuse/' + hclass)
 
 
 def shard_prior_and_large(sh):
